@@ -20,7 +20,7 @@ SPEC = {
                 "PyMatterSim.utils.funcs:Wignerindex"],
     "must_reach": ["PyMatterSim.static.boo:boo_3d.qlm_Qlm", "PyMatterSim.static.boo:boo_3d.ql_Ql", "PyMatterSim.static.boo:boo_3d.sij_ql_Ql",
                    "PyMatterSim.static.boo:boo_3d.w_W_cap", "PyMatterSim.static.boo:boo_3d.spatial_corr", "PyMatterSim.static.boo:boo_3d.time_corr"],
-    "floors": {"qlm": 2000, "Qlm": 2000, "ql": 300, "ql_bounds": 50, "w": 200, "wcap": 200, "sij": 100, "sij_bounds": 80, "sij_count": 40,
+    "floors": {"qlm": 2000, "Qlm": 2000, "ql": 300, "ql_bounds": 50, "w": 200, "wcap": 200, "sij": 100, "sij_bounds": 80, "sij_count": 40, "sij_table": 40,
                "spatial_corr": 20, "time_corr": 20, "equal_weights": 10, "crystals": 20, "weighted_cases": 8},
     "rule": ("neighbour definitions {repository N-nearest, cut-off, freud Voronoi with face-area weights, own ragged files with own "
              "weights} x l 2..12 x local/coarse-grained x {orthogonal, triclinic} x masks x 1..3 frames (even / uneven spacing) x "
@@ -127,6 +127,21 @@ def case_crystal(ctx, rng, wd, kind):
             ctx.close("crystals", np.asarray(ww[1])[0][sel], np.full(len(np.asarray(ww[1])[0][sel]), LIT[kind][f"w{l}"]), f"boo_3d/crystal/{kind}/w{l}", rtol=0, atol=5e-5,
                       what=f"{kind} w-hat{l} literature value", data=info, n=1)
     os.remove(fn)
+
+
+def csv_matches(ctx, path, frame, key, info):
+    """the csv holds exactly the returned table: same column names, same shape, values to the written precision (%.8f)"""
+    import pandas as pd
+    try:
+        back = pd.read_csv(path)
+        good = list(back.columns) == list(frame.columns) and back.shape == frame.shape and \
+            bool(np.all(np.abs(back.values - frame.values) <= 0.5000001e-8 + 1e-12 * np.abs(frame.values)))
+        msg = f"csv columns {list(back.columns)} shape {back.shape} vs returned {list(frame.columns)} {frame.shape}, or values beyond %.8f"
+    except Exception as e:  # noqa: BLE001
+        good, msg = False, f"csv unreadable: {e!r}"
+    ctx.check("output_files", bool(good), key, msg, info)
+    if os.path.exists(path):
+        os.remove(path)
 
 
 def files_match(ctx, path, returned, key, info):
@@ -332,7 +347,27 @@ def case_random(ctx, rng, wd, l=None):
                 if nrm.min() > 1e-6:
                     ctx.check("sij_bounds", bool(np.all(np.abs(arr[:, 2:]) <= 1 + 2e-6)), "boo_3d.sij_ql_Ql/bounds", "|s_ij| > 1", info)
         # thresholded count through the csv (the only place it is observable)
-        ok2, _ = ctx.call("boo_3d.sij_ql_Ql", b.sij_ql_Ql, cg, c, os.path.join(wd, "sum.csv"), os.path.join(wd, "sij.txt"), data=info)
+        ok2, tab = ctx.call("boo_3d.sij_ql_Ql", b.sij_ql_Ql, cg, c, os.path.join(wd, "sum.csv"), os.path.join(wd, "sij.txt"), data=info)
+        if ok2 and good:
+            # with an output file the routine returns (and writes) ONE table for all frames: every particle's row must hold all of its s_ij
+            tab = np.asarray(tab)
+            cnmax = max(len(x) for ll in lists for x in ll)
+            okt = tab.ndim == 2 and tab.shape == (T * N, 2 + cnmax)
+            if okt:
+                for t in range(T):
+                    a_ = np.asarray(sres[t])
+                    for i in range(N):
+                        k_ = len(lists[t][i])
+                        row = tab[t * N + i]
+                        okt &= bool(row[0] == i + 1 and row[1] == k_ and np.array_equal(row[2:2 + k_], a_[i, 2:2 + k_]) and not row[2 + k_:].any())
+            ctx.check("sij_table", bool(okt), "boo_3d.sij_ql_Ql/table" + tag,
+                      lambda: f"table returned with an output file: shape {tab.shape}, expected {(T * N, 2 + cnmax)} with every particle's s_ij in its row", info)
+            try:
+                txt = np.loadtxt(os.path.join(wd, "sij.txt"), skiprows=1, ndmin=2)
+                ctx.check("sij_table", txt.shape == tab.shape and bool(np.all(np.abs(txt - tab) <= 0.5000001e-6)), "boo_3d.sij_ql_Ql/file" + tag,
+                          lambda: f"sij text file (shape {txt.shape}) differs from the returned table (shape {tab.shape}) beyond %.6f", info)
+            except Exception as e:  # noqa: BLE001
+                ctx.check("sij_table", False, "boo_3d.sij_ql_Ql/file" + tag, f"sij text file unreadable: {e!r}", info)
         if ok2:
             import pandas as pd
             df = pd.read_csv(os.path.join(wd, "sum.csv"))
@@ -358,7 +393,10 @@ def case_random(ctx, rng, wd, l=None):
         w = Lmin / 2 / float(rng.uniform(6, 14))
         if abs(Lmin / 2 / w - round(Lmin / 2 / w)) < 1e-6:
             w *= 1.001
-        ok, sc = ctx.call("boo_3d.spatial_corr", b.spatial_corr, cg, w, "", data=info)
+        gfile = os.path.join(wd, "gl.csv") if rng.random() < 0.4 else ""
+        ok, sc = ctx.call("boo_3d.spatial_corr", b.spatial_corr, cg, w, gfile, data=info)
+        if ok and gfile:
+            csv_matches(ctx, gfile, sc, "boo_3d.spatial_corr/csv", info)
         if ok:
             nb = int(Lmin / 2.0 / w)
             V = abs(np.linalg.det(H))
@@ -385,7 +423,10 @@ def case_random(ctx, rng, wd, l=None):
             ctx.check("spatial_corr", ok_any, "boo_3d.spatial_corr" + tag, "spatial correlation differs from the frame-averaged bond-order-weighted pair histogram", info)
     if T >= 2:
         dt = 0.002
-        ok, tc = ctx.call("boo_3d.time_corr", b.time_corr, cg, dt, "", data=info)
+        tfile = os.path.join(wd, "gt.csv") if rng.random() < 0.4 else ""
+        ok, tc = ctx.call("boo_3d.time_corr", b.time_corr, cg, dt, tfile, data=info)
+        if ok and tfile:
+            csv_matches(ctx, tfile, tc, "boo_3d.time_corr/csv", info)
         if ok:
             tref, cref, _ = ref_corr(src, np.array(ts[:T]), dt)
             ctx.close("time_corr", tc["time_corr"].values, cref, "boo_3d.time_corr" + tag, rtol=1e-9, atol=1e-12, what="time correlation of q_lm", data=info)
